@@ -11,8 +11,8 @@ from . import common, tools
 
 ID = "C11"
 LEVEL = "exploration"
-BUDGET = {"quick": 960, "thorough": 19200}
-WALL_CAP = {"quick": 420, "thorough": 3300}
+BUDGET = {"quick": 8000, "thorough": 160000}
+WALL_CAP = {"quick": 600, "thorough": 5400}
 MECH = "/repo/test_assets/drm19.yaml"
 RULE = ("case = generated 3D plotfile x recipe: user .py recipes (one/two components, by index or by name, +-inf "
         "results) and, for a share of cases, built-in Cantera recipes HRR/ENT/SRi/SDi/RRi on worlds holding temp + the "
